@@ -240,7 +240,7 @@ func (g *Gen) tick() {
 func u(n uint64) string { return fmt.Sprint(n) }
 
 // oneOp generates, executes and records one mutating operation on (c,k).
-func (g *Gen) oneOp(c, k string) {
+func (g *Gen) oneOp(c, k string) (purged bool) {
 	before := g.curRow(c, k)
 	weights := []int{
 		8,  // add
@@ -475,6 +475,7 @@ func (g *Gen) oneOp(c, k string) {
 			g.oldCas[key] = g.oldCas[key][1:]
 		}
 	}
+	return l.Op == "purge"
 }
 
 func (g *Gen) rb(c, k string) {
@@ -513,8 +514,14 @@ func (g *Gen) program(n int) {
 		g.tick()
 		c := pick(g.r, g.colls)
 		k := pick(g.r, g.keys)
-		g.oneOp(c, k)
-		if g.profile == "multi" {
+		purged := g.oneOp(c, k)
+		if purged {
+			for _, cc := range g.colls {
+				for _, kk := range g.keys {
+					g.rb(cc, kk)
+				}
+			}
+		} else if g.profile == "multi" {
 			for _, cc := range g.colls {
 				g.rb(cc, k)
 			}
@@ -546,6 +553,11 @@ func (g *Gen) program(n int) {
 	}
 	// final snapshots: backfill dumps from several start points
 	if g.profile == "feeds" || g.profile == "multi" {
+		for _, cc := range g.colls {
+			for _, kk := range g.keys {
+				g.rb(cc, kk)
+			}
+		}
 		for di, c := range g.colls {
 			var start uint64
 			if g.r.chance(40) {
